@@ -9,6 +9,7 @@ import (
 	"strconv"
 
 	"github.com/mgtv-tech/redis-GunYu/config"
+	"github.com/mgtv-tech/redis-GunYu/pkg/log"
 	"github.com/mgtv-tech/redis-GunYu/pkg/redis/checkpoint"
 	"github.com/mgtv-tech/redis-GunYu/pkg/redis/client"
 )
@@ -28,6 +29,7 @@ func verifBisyncOutput(fake *verifFake, mode config.ReplayMode) *RedisOutput {
 	ro.cfg.ReplayMode = mode
 	ro.cfg.TargetDb = -1
 	ro.bisyncOffset.Store(-1)
+	ro.logger = log.WithLogger("[verif] ")
 	ro.newRedisConn = func(context.Context) (client.Redis, error) { return fake, nil }
 	return ro
 }
